@@ -372,14 +372,18 @@ func init() {
 		sort.Slice(rows, func(i, j int) bool { return rows[i].name < rows[j].name })
 		var b strings.Builder
 		b.WriteString(header("C03Html5Entities", "$GOROOT/src/html/entity.go (statement of the HTML5 named character reference table)"))
-		b.WriteString("/-- (name including the trailing `;` when the table entry has one, code points), sorted by name -/\n")
-		b.WriteString("def entities : List (List Char × List Nat) := [\n")
+		b.WriteString("/-- (name including the trailing `;` when the table entry has one — as the list of its ASCII codes, so that\n    the kernel compares keys with `Nat.beq` —, code points), sorted by name -/\n")
+		b.WriteString("def entities : List (List Nat × List Nat) := [\n")
 		for i, rw := range rows {
 			sep := ","
 			if i == len(rows)-1 {
 				sep = ""
 			}
-			fmt.Fprintf(&b, "  (%s, %s)%s\n", c03Chars(rw.name), c03Nats(rw.cps), sep)
+			codes := make([]int, len(rw.name))
+			for j := 0; j < len(rw.name); j++ {
+				codes[j] = int(rw.name[j])
+			}
+			fmt.Fprintf(&b, "  (%s, %s)%s -- %s\n", c03Nats(codes), c03Nats(rw.cps), sep, rw.name)
 		}
 		b.WriteString("]\n")
 		b.WriteString(footer("C03Html5Entities"))
@@ -484,8 +488,9 @@ func init() {
 				seen[k] = true
 				rows = append(rows, c03kv{k: k, v: v})
 			}
-			sort.Slice(rows, func(i, j int) bool { return rows[i].k < rows[j].k })
-			b.WriteString("\n/-- html.EntitiesMap: (name without `&`/`;`, replacement bytes), sorted by name -/\ndef entitiesMap : List (List Char × List Char) := [\n")
+			// sorted by `name;` (the order of the HTML5 table's `;`-terminated keys) so that one forward merge relates the tables
+			sort.Slice(rows, func(i, j int) bool { return rows[i].k+";" < rows[j].k+";" })
+			b.WriteString("\n/-- html.EntitiesMap: (name without `&`/`;`, replacement bytes), sorted by `name;` -/\ndef entitiesMap : List (List Char × List Char) := [\n")
 			for i, rw := range rows {
 				sep := ","
 				if i == len(rows)-1 {
